@@ -312,6 +312,11 @@ func verifC36Setup() *verifC36FS {
 	verifrt.Stub("os.Remove", verifC36RemoveFn)
 	verifrt.Stub("os.Open", verifC36OpenFn)
 	verifrt.Stub("os.Chmod", verifC36ChmodFn)
+	verifrt.Stub("os.OpenFile", func(name string, flag int, _ os.FileMode) (*os.File, error) {
+		verifrt.Assert(!(name == fs.final && flag&(os.O_CREATE|os.O_WRONLY|os.O_RDWR|os.O_TRUNC|os.O_APPEND) != 0),
+			"the file is created or opened for writing under its final name, where it is visible before it is complete")
+		return nil, &os.PathError{Op: "open", Path: name, Err: syscall.EIO}
+	})
 	return fs
 }
 
@@ -321,9 +326,19 @@ const verifC36Name = "0123456789abcdef0123456789abcdef0123456789abcdef0123456789
 func VerifC36_SaveCrash() {
 	fs := verifC36Setup()
 	b := &Local{Config: Config{Path: "/r", Connections: 2}, Layout: layout.NewDefaultLayout("/r", filepath.Join), Modes: util.DefaultModes}
+	// every file type goes through the same protocol
 	h := backend.Handle{Type: backend.PackFile, Name: verifC36Name}
-	if verifrt.Bool("config") {
+	switch k := verifrt.Int("type", 0, 5); {
+	case k == 1:
 		h = backend.Handle{Type: backend.ConfigFile}
+	case k == 2:
+		h.Type = backend.LockFile
+	case k == 3:
+		h.Type = backend.KeyFile
+	case k == 4:
+		h.Type = backend.SnapshotFile
+	case k == 5:
+		h.Type = backend.IndexFile
 	}
 	fs.final = b.Filename(h)
 	fs.length = int64(verifrt.Int("length", 0, verifrt.Param("length", 2)))
